@@ -181,6 +181,9 @@ def decorate(f, form, sel):
     if form == 'auto':
         if sel is None:
             return modifiers.autokwoargs(f)
+        if (len(sel) + f.__code__.co_argcount + f.__code__.co_kwonlyargcount) % 2:
+            # the function and the option in one call
+            return modifiers.autokwoargs(f, exceptions=sel)
         return reuse(modifiers.autokwoargs(exceptions=sel), f)
     raise AssertionError(form)
 
@@ -390,6 +393,71 @@ def check_permissive_defaults(stats):
         stats.nontriv(('permissive-default', label))
 
 
+def check_bound_objects(stats):
+    """The decorators applied to what is already bound (a method taken from an instance, a classmethod taken from the
+    class): the selection refers to the parameters that are left, unknown names are refused as for a function."""
+    import sigtools
+    from sigtools import modifiers
+    ns = {}
+    exec('class K(object):\n'
+         '    def m(self, a, b=2, c=3):\n        return {"self": self, "a": a, "b": b, "c": c}\n'
+         '    @classmethod\n    def cm(cls, a, b=2, c=3):\n        return {"self": cls, "a": a, "b": b, "c": c}\n', ns)
+    K = ns['K']
+    obj = K()
+    for label, bound, owner in (('instance method', obj.m, obj), ('classmethod', K.cm, K)):
+        for dlabel, deco in (("kwoargs('zz9')", lambda: modifiers.kwoargs('zz9')), ("posoargs('zz9')", lambda: modifiers.posoargs('zz9')),
+                             ("kwoargs('b', 'zz9')", lambda: modifiers.kwoargs('b', 'zz9')), ("kwoargs('self')", lambda: modifiers.kwoargs('self')),
+                             ("kwoargs(start='zz9')", lambda: modifiers.kwoargs(start='zz9')), ("posoargs(end='zz9')", lambda: modifiers.posoargs(end='zz9')),
+                             ("autokwoargs(exceptions=['zz9'])", lambda: modifiers.autokwoargs(exceptions=['zz9']))):
+            stats.case()
+            stats.cls('bound-object/inadmissible')
+            case = {'form': 'bound-object', 'object': label, 'decorator': dlabel}
+            try:
+                g = deco()(bound)
+            except ValueError:
+                continue
+            except Exception as e:
+                stats.fail('C12/bound-object/decoration-%s' % type(e).__name__, case, '%s on a bound %s (a, b=2, c=3) raised %s: %s' % (dlabel, label, type(e).__name__, e))
+                continue
+            stats.fail('C12/bound-object/inadmissible-accepted', case,
+                       '%s on a bound %s with parameters (a, b=2, c=3) names no parameter of it but did not raise ValueError; advertises %s' % (dlabel, label, sigtools.signature(g)))
+        for dlabel, deco, want, calls in (
+                ("kwoargs('b')", lambda: modifiers.kwoargs('b'), '(a, c=3, *, b=2)', [((1,), {}), ((1, 9), {}), ((1,), {'b': 5}), ((1, 9, 8), {})]),
+                ("posoargs('a')", lambda: modifiers.posoargs('a'), '(a, /, b=2, c=3)', [((1,), {}), ((), {'a': 1}), ((1, 7), {'c': 4})]),
+                ('autokwoargs', lambda: modifiers.autokwoargs, '(a, *, b=2, c=3)', [((1,), {}), ((1, 9), {}), ((1,), {'c': 5})]),
+                ("autokwoargs(exceptions=['b'])", lambda: modifiers.autokwoargs(exceptions=['b']), '(a, b=2, *, c=3)', [((1, 9), {}), ((1, 9, 8), {}), ((1,), {'c': 5})])):
+            stats.case()
+            stats.cls('bound-object/admissible')
+            case = {'form': 'bound-object', 'object': label, 'decorator': dlabel}
+            try:
+                g = deco()(bound)
+                sig = sigtools.signature(g)
+            except Exception as e:
+                stats.fail('C12/bound-object/raised-%s' % type(e).__name__, case, '%s on a bound %s (a, b=2, c=3) raised %s: %s' % (dlabel, label, type(e).__name__, e))
+                continue
+            if str(sig) != want:
+                stats.fail('C12/bound-object/advertised', case, '%s on a bound %s (a, b=2, c=3) advertises %s, expected %s' % (dlabel, label, sig, want))
+                continue
+            ref = universe.sig_view(sig)
+            for a, k in calls:
+                okref = cpbind.accepts(ref, len(a), tuple(k))
+                try:
+                    got = g(*a, **k)
+                except TypeError:
+                    got = None
+                if (got is not None) != okref:
+                    stats.fail('C12/bound-object/call', case, '%s on a bound %s advertises %s but the call (*%r, **%r) %s' % (
+                        dlabel, label, sig, a, k, 'is rejected' if got is None else 'is accepted'))
+                    break
+                if got is not None:
+                    b = cpbind.binder(ref).bind(a, k, {'b': 2, 'c': 3})
+                    if got['self'] is not owner or any(got[n] != b[n] for n in ('a', 'b', 'c')):
+                        stats.fail('C12/bound-object/delivery', case, '%s on a bound %s: the call (*%r, **%r) delivered %r, expected %r on %r' % (dlabel, label, a, k, got, b, owner))
+                        break
+            else:
+                stats.nontriv(('bound-object', label, dlabel))
+
+
 def selections(spec):
     cand = [p.name for p in spec] + ['q']
     subs = [c for r in range(0, 4) for c in itertools.combinations(cand, r)]
@@ -481,6 +549,7 @@ def shard_hyp(arg):
 def shard_permissive(arg):
     st = Stats()
     check_permissive_defaults(st)
+    check_bound_objects(st)
     return st
 
 
@@ -503,6 +572,9 @@ def run(ctx):
 def replay(case, stats):
     if case.get('form') == 'permissive-default':
         check_permissive_defaults(stats)
+        return
+    if case.get('form') == 'bound-object':
+        check_bound_objects(stats)
         return
     spec = tuple(Par(*p) for p in case['spec'])
     spec = tuple(p._replace(default='1') if p.default is not None else p for p in spec)
